@@ -133,7 +133,7 @@ Section Exporter.
 
   Lemma fire_frame r st d : frame st (fire o r st d).
   Proof.
-    unfold fire. destruct (ref_lookup (d_id d) (s_ref st)) as [[c a]|].
+    unfold fire. destruct (ref_lookup (d_id d) (s_ref st)) as [[d0 [c a]]|].
     - destruct (c <=? 1).
       + eapply frame_trans; [apply set_ref_frame|apply on_done_frame].
       + apply set_ref_frame.
